@@ -377,7 +377,18 @@ def generate(chk, rng, n, start_id):
     for i in range(n):
         h.wipe(["lr", "n0", "n1", "a", "b", "l", "r"])
         h.recording = False
-        s, names, intended, shape = makers[i % len(makers)]()
+        try:
+            s, names, intended, shape = makers[i % len(makers)]()
+        except Exception as e:      # the committed starting graph (plain inserts of a consistent graph) could not be flushed
+            shape = ["self-referential tree (default cascade)", "self-referential tree (all cascade)", "mutual FK cycle with post_update",
+                     "many-to-many association"][i % len(makers)] + ", starting graph"
+            st = stats.setdefault(shape, {"flushes": 0, "ok": 0, "integrity_error": 0, "statements": 0})
+            st["flushes"] += 1
+            st[type(e).__name__] = st.get(type(e).__name__, 0) + 1
+            if st[type(e).__name__] <= 3:
+                out.append({"id": start_id + len(out), "shape": shape, "kind": "fail", "ev": [], "exc": type(e).__name__,
+                            "violation": "commit of the starting graph raised %s on shape %s: %s" % (type(e).__name__, shape, str(e)[:200])})
+            continue
         pre = h.rows(s.connection(), names)
         h.events = []
         h.recording = True
